@@ -702,6 +702,8 @@ def normalise(t):
         return ("try", t[1])
     if h == "try" and _is(t[1], "Ok") and len(t[1]) == 2:
         return t[1][1]
+    if h == "try" and t[1] == ("Err",):
+        return ("return", ("Err",))
     if h == "try" and _is(t[1], "if") and len(t[1]) == 4:
         return ("if", t[1][1], normalise(("try", t[1][2])), normalise(("try", t[1][3])))
     if h == "try" and _is(t[1], "match") and len(t[1]) > 2:
